@@ -63,6 +63,9 @@ class DefaultTrackerHandler(ResultHandler):
         self._constraint_tolerance = constraint_tolerance
         self._sources = set() if sources is None else sources
         self["results"] = None
+        # The stored optimum, and its counterpart in the optimizer domain:
+        self._optimum: FunctionResults | None = None
+        self._transformed_optimum: FunctionResults | None = None
 
     def handle_event(self, event: Event) -> None:
         """Handle an event.
@@ -80,12 +83,20 @@ class DefaultTrackerHandler(ResultHandler):
             filtered_results: FunctionResults | None = None
             match self._what:
                 case "best":
-                    filtered_results = _update_optimal_result(
-                        self["results"],
+                    # If the stored result was changed from the outside, e.g.
+                    # by a reset, it is used as is:
+                    if self["results"] is not self._optimum:
+                        self._optimum = self["results"]
+                        self._transformed_optimum = self["results"]
+                    optimum = _update_optimal_result(
+                        self._transformed_optimum,
                         results,
                         transformed_results,
                         self._constraint_tolerance,
                     )
+                    if optimum is not None:
+                        filtered_results, self._transformed_optimum = optimum
+                        self._optimum = filtered_results
                 case "last":
                     filtered_results = _get_last_result(
                         results,
